@@ -27,6 +27,7 @@ CfgOf(t) == [hs |-> Rng(t.cfg.hs), cancellable |-> Rng(t.cfg.cancellable), cance
 
 InitTrace == \E s \in 1..Len(Trace) :
                /\ sc = s /\ idx = [k \in Keys |-> 1] /\ gseq = 0
+               /\ (Diag => TLCSet(1, 0))
                /\ InitWith(CfgOf(Trace[s]))
 
 Log(k)     == Trace[sc].ev[k]
@@ -74,5 +75,4 @@ Accepted == \A k \in Keys : ~Pending(k)
 Report ==
   /\ Accepted => PrintT(<<"DONE", sc>>)
   /\ (Diag /\ Consumed > TLCGet(1)) => (TLCSet(1, Consumed) /\ PrintT(<<"HW", sc, Consumed>>))
-DiagInit == TLCSet(1, 0)
 =============================================================================
